@@ -591,6 +591,12 @@ class Blockwise(Expr):
         ``i``. Other subclasses have to override this method; returning
         ``None`` keeps the selection on top of the expression.
         """
+        dependencies = self.dependencies()
+        if dependencies and all(self._broadcast_dep(dep) for dep in dependencies):
+            # No dependency takes the selection (e.g. MapPartitions reads its
+            # single-partition arguments as a whole): the one output partition
+            # is all there is to select from, possibly several times
+            return self if list(partitions) == [0] else None
         operands = [
             (
                 Partitions(op, partitions)
